@@ -115,10 +115,11 @@ Fixpoint offered_ok (pool : list Z) (o : opts) (height cutoff : Z) (a : astate) 
         let a0 := {| a_weight := a_weight a; a_sigops := a_sigops a; a_fees := a_fees a; a_sel := a_sel a; a_failed := 0 |} in
         offered_ok pool o height cutoff (fold_left add_to_block (k_txs k) a0) r
   end.
-(* every chunk's size covers the weights of its transactions (GetAdjustedWeight >= GetTxWeight), the numbers are non-negative *)
+(* every chunk's size (an int32) covers the weights of its transactions (GetAdjustedWeight >= GetTxWeight), the numbers are
+   non-negative, the sigop costs of a chunk fit an int32 *)
 Definition chunk_wf (k : chunk) : bool :=
-  (zsum (map c_weight (k_txs k)) <=? k_size k) &&
-  forallb (fun t => (0 <=? c_weight t) && (0 <=? c_sigops t) && (0 <=? c_fee t) && (c_fee t <=? MAX_MONEY)) (k_txs k).
+  (zsum (map c_weight (k_txs k)) <=? k_size k) && (k_size k <=? INT32_MAX) && (zsum (map c_sigops (k_txs k)) <=? INT32_MAX) &&
+  forallb (fun t => (0 <=? c_weight t) && (0 <=? c_sigops t) && (0 <=? c_fee t)) (k_txs k).
 
 (* ------------------------------------------------------------------------------------------ *)
 (* The property's predicate on a template as the implementation produced it: transactions in block order, the block weight
